@@ -92,7 +92,7 @@ func init() {
 		NotDecided: []string{
 			"orientation, closure, no repeated vertex, at least three vertices per ring, shell first: properties of the unverified ring assembly (trusted leaves), only the bounded stand-in ring-clauses-small on a dyadic grid; known defect F4 (float round trip in isHitMultiple) lives there and is outside that stand-in's domain",
 			"the keep-points-and-lines relation between two runs (with and without the option): only the bounded stand-in ring-clauses-small"},
-		Assumptions: []string{"preconditions of SnapPolygon's contract", "matchInnersToPolygons is trusted for: never fewer polygons than it was given"},
+		Assumptions: []string{"preconditions of SnapPolygon's contract"},
 		Extra:       func(cc *checkCtx) *extraResult { return cc.runOverlayTests([]overlayTest{c05Rings}) },
 		Demos:       []findingDemo{{ID: "F4", Src: "f4_repeated_vertex_test.go", PkgRel: "snap", Run: "^TestGvcFindingF4$"}},
 	}
